@@ -1,5 +1,5 @@
 """C05 — tampered or reflected ciphertext is never delivered as plaintext (DESIGN.md 4/C05)."""
-from ..mir import Callee, last_seg, loc, op_place
+from ..mir import tymatch, Callee, last_seg, loc, op_const, op_place
 from .common import SUCCESS_ARM, err_return_reachable_only, gates_of_value, returns_variant, success_edge_dominates
 from . import c03, c10
 
@@ -182,7 +182,7 @@ def run(ctx):
             ctx.ob("T1c", b.defp, f"released-bytes-were-opened:{what}", loc(sp), ok,
                    "released bytes come from a buffer whose AEAD open succeeded on every path to this point" if ok else
                    "bytes are released without a dominating successful AEAD open over that buffer")
-    ctx.floor("T1c", "release sinks in functions that open", 8, n_sink)
+    ctx.floor("T1c", "release sinks in functions that open", 5, n_sink)
 
     # (e) decoder state is not advanced before the authentication it depends on
     n_e = 0
@@ -212,7 +212,7 @@ def run(ctx):
 
     # (d) unauthenticated lengths
     for b in bodies:
-        if (b.impl_self_def or "").endswith("vmess::aead::AEADBodyCodec") and b.method == "decode_size" and b.root == b.defp:
+        if tymatch((b.impl_self_def or ""), "vmess::aead::AEADBodyCodec") and b.method == "decode_size" and b.root == b.defp:
             for (blk, c, t) in b.calls():
                 if c.name in ("PlainSizeParser::decode_size", "ShakeSizeParser::decode_size"):
                     ctx.ob("T1d", b.defp, f"unauthenticated-length:{c.name}", loc(t["sp"]), False,
@@ -234,6 +234,7 @@ def run(ctx):
         for (blk, c, t) in decs_:
             gs = [g for g in gates_of_value(b, t["dest"][0]) if g.kind == "result"]
             latch_fields = set()
+            latch_vals = {}
             for g in gs:
                 err_t = g.target_for(1)
                 reach = b.reach_from(err_t)
@@ -242,14 +243,25 @@ def run(ctx):
                         if s["k"] in ("assign", "setdiscr") and _writes_self_field(b, s["p"]):
                             fl = [e for e in s["p"][1] if e[0] == "field"]
                             if fl:
-                                latch_fields.add(fl[-1][2] or fl[-1][1])
+                                fname = fl[-1][2] or fl[-1][1]
+                                latch_fields.add(fname)
+                                rv_ = s.get("rv") or {}
+                                if rv_.get("k") == "use" and op_const(rv_["op"]) is not None and "int" in op_const(rv_["op"]):
+                                    latch_vals.setdefault(fname, set()).add(op_const(rv_["op"])["int"])
+                                elif rv_.get("k") == "agg" and rv_.get("ak") == "adt" and rv_.get("vidx") is not None:
+                                    latch_vals.setdefault(fname, set()).add(rv_["vidx"])
+                                elif rv_.get("k") == "use" and op_place(rv_["op"]) is not None:
+                                    for d2 in b.defs().get(op_place(rv_["op"])[0], []):
+                                        if d2[0] == "assign" and d2[3]["rv"]["k"] == "agg" and d2[3]["rv"].get("ak") == "adt" and d2[3]["rv"].get("vidx") is not None:
+                                            latch_vals.setdefault(fname, set()).add(d2[3]["rv"]["vidx"])
             latched = bool(latch_fields)
             ctx.ob("T2", b.defp, "latches-after-decode-error", loc(t["sp"]), latched,
                    "a decode error is latched in the adapter" if latched else
                    "after a decode error the adapter keeps feeding later messages to the same codec (no latch): the server relay drops Err items and continues, so data after a "
                    "deleted/tampered chunk can still be released once the nonce counters re-align")
-            # the latch is consulted before *every* decode of a later activation: each decode call lies behind the not-set edge of a test of a
-            # latch field (a latch that only stops the transport poll still lets the rest of an already buffered message be decoded)
+            # the latch is consulted before *every* decode of a later activation: each decode call is dominated by a test of a latch field
+            # (a bool flag or the discriminant of a state enum) and is not reachable from that test's "latched" edge. A latch that only
+            # stops the transport poll still lets the rest of an already buffered message be decoded.
             guarded = False
             for sb in b.rpo():
                 st = b.term(sb)
@@ -260,16 +272,20 @@ def run(ctx):
                     continue
                 tested = None
                 for d in b.defs().get(dp[0], []):
-                    if d[0] == "assign" and d[3]["rv"]["k"] == "use":
-                        q = op_place(d[3]["rv"]["op"])
-                        if q and b.local_ty(dp[0]) == "bool":
+                    if d[0] == "assign" and d[3]["rv"]["k"] in ("use", "discr"):
+                        q = op_place(d[3]["rv"]["op"]) if d[3]["rv"]["k"] == "use" else d[3]["rv"]["p"]
+                        if q:
                             fl = [e for e in q[1] if e[0] == "field"]
-                            if fl and (fl[-1][2] or fl[-1][1]) in latch_fields:
+                            if fl and (fl[-1][2] or fl[-1][1]) in latch_fields and not any(e[0] == "downcast" for e in q[1]):
                                 tested = fl[-1][2] or fl[-1][1]
-                if tested is None:
+                if tested is None or not b.dominates(sb, blk):
                     continue
-                not_set = [tg for (v, tg) in st["arms"] if v == 0]
-                if not_set and edge_dom(prog, b, sb, not_set[0], blk):
+                vals = latch_vals.get(tested) or {1}
+                latched_targets = set()
+                for v_ in vals:
+                    tg = [t_ for (vv, t_) in st["arms"] if vv == v_]
+                    latched_targets.add(tg[0] if tg else st["otherwise"])
+                if not any(blk in b.reach_from(lt, avoid=frozenset([sb])) for lt in latched_targets):
                     guarded = True
             if latched:
                 ctx.ob("T2", b.defp, "latch-tested-before-decode", loc(t["sp"]), guarded,
